@@ -115,6 +115,10 @@ pub fn run(ctx: &Ctx) {
         blocks.push(Block::new(u_unit_counts(), grid(&[R, R | D, R | I], 3), "{r, r+d, r+i} x 3x3 thresholds"));
         blocks.push(Block::new(crate::props::c05::u_rep_single(&["a", "b"], 9), vec![Cfg::new(0), Cfg::new(W), Cfg::new(X), Cfg::with(0, 3, 3)], "no r: {}, w, x, thresholds (3,3)"));
         blocks.push(Block::new(Universe::new("U_adv(units)", &["a\u{1f3fb}", "\u{1f4a9}", "a", "{", "1"], 5, 1, false), grid(&[R, R | E, R | D], 3), "{r, r+e, r+d} x 3x3"));
+        blocks.push(Block::new(u_kind_pairs(3, 1, false), vec![Cfg::new(0), Cfg::new(X), Cfg::new(R), Cfg::with(R, 2, 1), Cfg::with(R, 1, 2)], "{}, x, r, r(2,1), r(1,2)"));
+        blocks.push(Block::new(u_long_rep(30), grid(&[R], 3), "r x 3x3 thresholds"));
+        blocks.push(Block::new(u_long_runs(40), grid(&[R], 3), "r x 3x3 thresholds"));
+        blocks.push(Block::new(u_count_gaps(), grid(&[R], 3), "r x 3x3 thresholds"));
     } else {
         blocks.push(Block::new(crate::props::c05::u_rep_single(&["a", "b"], 14), grid(&[R], 6), "r x 6x6 thresholds"));
         blocks.push(Block::new(crate::props::c05::u_rep_single(&["a", "b"], 12), grid(&with_r, 6), "5 bases x 6x6 thresholds"));
@@ -124,6 +128,10 @@ pub fn run(ctx: &Ctx) {
         blocks.push(Block::new(Universe::new("U_triples{a,b}^<=3", &["a", "b"], 3, 3, false), grid(&[R, R | X], 3), "{r, r+x} x 3x3"));
         blocks.push(Block::new(crate::props::c05::u_rep_single(&["a", "b"], 12), vec![Cfg::new(0), Cfg::new(W), Cfg::new(X), Cfg::with(0, 3, 3), Cfg::new(E)], "no r"));
         blocks.push(Block::new(Universe::new("U_adv(units)", &["a\u{1f3fb}", "\u{1f4a9}", "a", "{", "1"], 6, 1, false), grid(&[R, R | E, R | D, R | X], 4), "4 bases x 4x4"));
+        blocks.push(Block::new(u_kind_pairs(4, 1, false), grid(&[R, R | X], 3), "{r, r+x} x 3x3"));
+        blocks.push(Block::new(u_count_gaps(), grid(&[R, R | X, R | NE], 5), "{r, r+x, r+ne} x 5x5 thresholds"));
+        blocks.push(Block::new(u_long_rep(46), grid(&[R, R | I], 4), "{r, r+i} x 4x4 thresholds"));
+        blocks.push(Block::new(u_kind_pairs(3, 1, false), vec![Cfg::new(0), Cfg::new(X), Cfg::new(E), Cfg::new(I), Cfg::with(0, 2, 2)], "no r: {}, x, e, i, thresholds (2,2)"));
     }
     sweep(ctx, &blocks, check_case);
 }
